@@ -17,7 +17,7 @@ FN = ['parsePkgLength', 'parseNumConstant', 'parseString', 'parseNameString', 'n
 class C12(flow.Spec):
     prop = 'C12'
     props_files = ['theories/Props/C12.v', 'theories/Props/C12_examples.v']
-    model_targets = ['theories/Aml/RunC12.vo', 'theories/Aml/ParserProofsTop.vo', 'theories/Aml/ParserTotalTop.vo']
+    model_targets = ['theories/Aml/RunC12.vo', 'theories/Aml/ParserProofsTop.vo', 'theories/Aml/ParserTotalTop.vo', 'theories/Aml/ParserTotalCalls.vo', 'theories/Aml/ParserTotalReloc.vo']
     pkg = 'device/acpi/aml'
     harness = [os.path.join(H, 'zz_verif_c12_test.go'), os.path.join(H, 'zz_verif_amlcommon_test.go')]
     test = 'TestVerifC12$'
@@ -47,8 +47,7 @@ class C12(flow.Spec):
                'parseFieldElements, parseByteList, scope / pkgEnd stacks; skip mode) it is PROVED for every table image, every pool that '
                'satisfies C13\'s R with a live root, valid opcode-table indexes and room for 4 objects per byte, and every fuel, that the '
                'outcome is never Panic and that the returned pool again satisfies R (built on C13\'s append_R / appendAfter_R / newObject_R); '
-               'NOT proved for mergeScopeDirectives / relocateNamedObjects, parseDeferredBlocks, resolveMethodCalls, '
-               'connectNonNamedObjArgs (they start from the invariant the earlier passes are shown to re-establish)',
+               'NOT proved for mergeScopeDirectives and parseDeferredBlocks',
                'C12_parse_total_partial_fuel_first_pass: under the same hypotheses the first pass run with ParseAML\'s own fuel '
                '(parse_fuel = 64 + 8 * table length) RETURNS (no Panic, no OutOfFuel) - incl. the outer loop of parseObjectList: the scope '
                'stack is never deeper than the pkgEnd stack (table fact: a TermList argument is preceded by a PkgLen argument in the row of '
@@ -58,6 +57,11 @@ class C12(flow.Spec):
                'C12_parse_total_partial_nopanic_connectNamedObjArgs / _nopanic_first_pass_connectNamedObjArgs: connectNamedObjArgs (with '
                'setNameFrom, attachSiblingsAsArgs) never panics from any state satisfying R + valid opcode-table indexes + slices inside, '
                'and re-establishes all three; chained with the first pass from the initial state of any table; its fuel is NOT analysed',
+               'C12_parse_total_partial_nopanic_relocateNamedObjects, _nopanic_resolveMethodCalls and _nopanic_connectNonNamedObjArgs: these passes never panic and '
+               're-establish R / valid indexes / slices inside from ANY state that satisfies them (resolveMethodCalls additionally needs - '
+               'and keeps - "every pOpIntNamePathOrMethodCall object carries a []byte value", which is not yet derived from the earlier '
+               'passes; relocateNamedObjects needs the root at slot 0 to be a ScopeBlock); their fuel is NOT analysed; they are NOT yet chained '
+               'after passes 1-2 because mergeScopeDirectives and parseDeferredBlocks in between are not covered',
                'the unproved parts of C12_full_parse_total (no Panic / OutOfFuel and R for the later passes, outcome class of load) are covered '
                'by the correspondence of the extracted model (explicit Panic / OutOfFuel outcomes, all passes modelled) with the real parser '
                'and by the harness monitors (outcome class, watchdog, independent link checker, PrettyPrint)',
